@@ -514,6 +514,11 @@ def check(fx, rep, tier):
                 sample={"rule": "R13.3", "fn": b["def"], "stage": locs[0], "propagated": "?" if under_try else "tail"} if n_stage <= 8 else None,
             )
     rep.floor("R13.3", n_stage, 8, "fallible stage calls in functions returning a layout")
+    # ... and the one-call entry points pass through every stage (a shortcut around a stage is a path on which the watchdog is
+    # never polled and a stop never surfaces): shared with C17 R17.7
+    from .. import core as _core3
+
+    _core3.import_rules(rep, fx, "C17", "R13.3", only_rules=("R17.7",), floor=2, what="pipeline-complete obligations (C17 R17.7): every non-error exit of analyze() / run() has passed through every stage")
 
     # ---------------------------------------------------------------- R13.5
     n_pe = 0
